@@ -25,7 +25,7 @@ POOL = [
     "y ~ x", "y ~ f", "y ~ 0 + f:g + x", "y ~ f*g + poly(x, 2)", "yc ~ x", "yc[v] ~ f + x", "prop(s, n) ~ x + f", "prop(s, 9) ~ x",
     "y ~ 1", "x + f", "y ~ x + (1|g)", "y ~ (x|g)", "y ~ (f|g)", "y ~ (0 + f|g) + (1|h)", "y ~ (x|g:h) + (0 + f:x|h)",
     "y ~ (x|g) + (x|h)", "y ~ x + (bs(x, df=3)|g)", "y ~ f + (f|g) + (x|h)", "y ~ 0 + C(k) + (1|g/h)", "y ~ (1|h) + (f*x|g)",
-    "yc ~ 0 + x + (0 + x|g)", "(x|g)", "x + f + (x|g)", "y ~ 0 + (x|g)", "0 + (f|g)", "y ~ 0 + bs(x, df=4)", "y ~ 0 + bs(x, df=4):f", "y ~ f + poly(x, 3) + (0 + bs(x, df=4)|g)", "y ~ one + x + f", "y ~ x + one + (1|g) + (0 + x|g)", "y ~ x + offset(s) + f", "y ~ offset(2.5) + (1|g)", "y ~ C(fl) + x", "y ~ x + (1|C(fl))", "ylong ~ x + flong", "ylong ~ 0 + x + (flong|g)",  # 'one' has a single level: a term without columns
+    "yc ~ 0 + x + (0 + x|g)", "(x|g)", "x + f + (x|g)", "y ~ 0 + (x|g)", "0 + (f|g)", "y ~ (0 + f|g + h) + (1|g)", "y ~ x + (f|g + h) - (1|h)", "y ~ (0 + f:x|g/h) + (1|g)", "y ~ 0 + bs(x, df=4)", "y ~ 0 + bs(x, df=4):f", "y ~ f + poly(x, 3) + (0 + bs(x, df=4)|g)", "y ~ one + x + f", "y ~ x + one + (1|g) + (0 + x|g)", "y ~ x + offset(s) + f", "y ~ offset(2.5) + (1|g)", "y ~ C(fl) + x", "y ~ x + (1|C(fl))", "ylong ~ x + flong", "ylong ~ 0 + x + (flong|g)",  # 'one' has a single level: a term without columns
 ]
 FRAMES = ["sub", "rev", "newg", "newh", "newgh", "one"]
 FRAMES_T = FRAMES + ["dup"]
@@ -329,6 +329,21 @@ def check_case(case, acc):
                 tmp = []
                 check_object(kind, root, len(df), f"root {kind} after the same formula was built on another frame", tmp)
                 problems.extend([("earlier-object-unchanged", m) for _, m in tmp[:1]])
+        # the same data with repeated index labels and two incomplete rows: one row per retained observation, in every member
+        dup = df.copy()
+        dup.index = [i // 3 for i in range(len(dup))]
+        import re
+
+        used_num = [c for c in ("x", "s", "y") if c in set(re.findall(r"[A-Za-z_][A-Za-z0-9_]*", d))]
+        if used_num:
+            col = dup.columns.get_loc(used_num[0])
+            dup[used_num[0]] = dup[used_num[0]].astype(float)
+            dup.iloc[[4, 17], col] = np.nan
+            acc.calls += 1
+            dm3 = design_matrices(d, dup)
+            for kind, M in (("response", dm3.response), ("common", dm3.common), ("group", dm3.group)):
+                if M is not None:
+                    check_object(kind, M, len(dup) - 2, f"{kind} of the frame with repeated index labels and two incomplete rows", problems)
         acc.subcases(case, nstates, True, "derived-objects")
     except Exception as e:
         problems.append(("design-exists", f"{d!r} raised {type(e).__name__}: {e} @ {exc_sig(e)}"))
